@@ -1,6 +1,8 @@
 package combat
 
 import (
+	"sort"
+
 	"github.com/simimpact/srsim/pkg/engine/event"
 	"github.com/simimpact/srsim/pkg/engine/info"
 	"github.com/simimpact/srsim/pkg/engine/prop"
@@ -38,7 +40,15 @@ func (mgr *Manager) Heal(heal info.Heal) {
 		// (snapshots, formula terms, flat value) take effect
 		hpLost := target.MaxHP() - target.CurrentHP()
 		base := e.HealValue
-		for k, v := range e.BaseHeal {
+		// sum the terms in ascending formula order: float addition is not associative, so the
+		// (random) iteration order of the map must not reach the result
+		formulas := make([]model.HealFormula, 0, len(e.BaseHeal))
+		for k := range e.BaseHeal {
+			formulas = append(formulas, k)
+		}
+		sort.Slice(formulas, func(i, j int) bool { return formulas[i] < formulas[j] })
+		for _, k := range formulas {
+			v := e.BaseHeal[k]
 			switch k {
 			case model.HealFormula_BY_HEALER_ATK:
 				base += v * source.ATK()
